@@ -19,6 +19,12 @@ CHECKS["C03"] = dict(level="exploration",
    technique="differential runtime monitor: reference executor on original vs normalised operation, idempotence and metamorphic variant equality over generated cases",
    design_ref="DESIGN.md §6 C03")
 
+CHECKS["C02"] = dict(level="exploration",
+   text="Runtime monitoring of the real Resolvable / Resolver / ExecutionEngine rendering: generated response plan trees (mirroring the planner's construction rules and cross-checked against the real planner on an engine slice) x payloads built FROM the tree and spoiled at recorded positions (null, missing key, wrong kinds, bad/missing __typename, invalid enum, array<->object). Every render is judged by an independent reference CompleteValue: one valid JSON document, exact projection for well-typed payloads, spec null propagation for null/missing-only payloads, type-safety + coverage of every replacement by an error at an offending position, and every error path denotes a real response position. A panic on any payload refutes the property (child-process isolation attributes crashes to the case).",
+   note="Trusted: encoding/json as syntax referee, the harness's reference CompleteValue and its reading of the plan tree annotations, the repository's merge_fields post-processor when building synthetic trees (checked against the real planner on the engine slice). Kind-level conformance only; Apollo-compatibility options at defaults.",
+   technique="generator-driven differential runtime monitor with reference value completion, offences known by construction",
+   design_ref="DESIGN.md §6 C02, Appendix F2")
+
 NOT_YET = {
 }
 
